@@ -4,7 +4,7 @@ VERIF = os.path.dirname(os.path.dirname(os.path.abspath(__file__)))
 
 TARGETS = {
     "C08": ["hint", "drv"], "C16": ["hcov", "drv"], "C13": ["drv", "fuzz", "cli", "clip"], "C14": ["drv", "fuzz", "cli", "clip"],
-    "C19": ["drv", "cli"], "C20": ["drv", "cli"], "C18": ["drv", "cli"], "C12": ["drv", "clip"],
+    "C19": ["drv", "cli"], "C20": ["drv", "cli"], "C18": ["drv", "cli", "clip"], "C12": ["drv", "clip"],
 }
 
 
